@@ -32,6 +32,13 @@ def corpus():
     out.append({"k": "seq", "n": 1, "d": 32, "steps": ["frac", "float"]})
     out.append({"k": "events", "ev": [[0, [False, 60000, 3]], [192, [False, 120, 0]]], "noise": 0})
     out.append({"k": "events", "ev": [], "noise": 0})
+    # a zero beat on the left or on the right of every operator, with each kind of second operand: the result is a Beat all the same
+    for op in ("add", "sub", "mul", "truediv", "mod", "divmod", "radd", "rsub", "rmul"):
+        for bk, b in (("int", [3, 1]), ("frac", [1, 3]), ("beat", [5, 48]), ("int", [-2, 1])):
+            out.append({"k": "ops", "op": op, "a": [0, 1], "b": b, "bk": bk})
+    for op in ("add", "sub", "mul", "radd", "rsub", "rmul", "rtruediv", "rmod", "rdivmod"):
+        for bk in ("int", "frac", "beat"):
+            out.append({"k": "ops", "op": op, "a": [7, 12], "b": [0, 1], "bk": bk})
     out += [{"k": "ops", "op": op, "a": [0, 54], "b": [597, 770], "bk": "frac"} for op in ("rdivmod", "rtruediv", "rmod", "mul")]   # zero divisor: ZeroDivisionError is the right answer
     out.append({"k": "events", "ev": [[576, [False, 90, 0]], [0, [False, 180, 0]], [576, [False, 1, 0]]], "noise": 0})      # written out of order, repeated beat
     # exactness of % and divmod with small operands of either sign (measures, halves, quarters)
